@@ -1,6 +1,1271 @@
-//! C12 -- (stub; see DESIGN.md section 5)
-use crate::util::Args;
+//! C12: paragraphs -- `boxworks::TextPreprocessor::add_text` (boxworks-text) and
+//! `boxworks_knuthplass::LineBreaker::break_line` (816 + Knuth-Plass + post_line_break) -- binding F.
+//!
+//! Two kinds of call events are recorded, one per call of the real code:
+//!
+//! ```json
+//! {"fn":"text","font":0|1,"text":"...","words":[[code,..],..],"sfc":[[sf code,..],..],
+//!  "S":{"font":{"space":..,"stretch":..,"shrink":..,"extra":..},"ss":GLUE,"xs":GLUE},
+//!  "codes":[[char code, sf code],..]   (entries of the \sfcode table that differ from plain TeX; replay only)
+//!  "nodes":[NODE,..]}                                                  or "panic":[file,msg]
+//!
+//! {"fn":"para","orig":[NODE,..],"list":[NODE,..],"hyph":0|1,
+//!  "P":{"ls":GLUE,"rs":GLUE,"pfs":GLUE,"ilp":..,"club":..,"widow":..,"broken":..,"widths":[..],"indents":[..]},
+//!  "K":{...the other line-breaking parameters; replay only...},
+//!  "bps":[..],"v":[VNODE,..],"words":[[code,..],..]?}                  or "panic":[file,msg]
+//! ```
+//!
+//! GLUE = {"w","st","sto","sh","sho"}; NODE = the `ds::Horizontal` value field by field (see `node`);
+//! VNODE = hbox {"k":"hbox","w","s","list":[NODE..]} | {"k":"penalty","p"} | {"k":"vglue",..}.
+//! `words`/`sfc` are the *inputs* (the text split at blanks, the table looked up per character),
+//! `S.font` the four TFM parameters read from the font file.  `bps` are the breakpoints the line
+//! breaker chose, observed through the public `debug::Logger` callbacks.  No expected value is
+//! computed here: specs/Trace_SpaceFactor.tla and specs/Trace_PostLineBreak.tla recompute the
+//! glue sequence and the vertical list with the transcriptions of tex.web 1034-1044 and 816,
+//! 877-890.
+use crate::util::{catch, quiet_panics, Args, Out, Rng};
+use boxworks::ds;
+use boxworks::LineBreaker as _;
+use boxworks::TextPreprocessor as _;
+use boxworks_knuthplass as kp;
+use common::{GlueOrder, Scaled};
+use serde_json::{json, Value};
+use std::collections::BTreeMap;
 
-pub fn dispatch(_cmd: &str, _args: &Args) -> Option<i32> {
-    None
+pub fn dispatch(cmd: &str, args: &Args) -> Option<i32> {
+    Some(match cmd {
+        "c12-text" => texts(args),
+        "c12-para" => paras(args),
+        "c12-exh" => exhaustive(args),
+        "c12-replay" => replay(args),
+        "c12-goldens" => goldens(args),
+        _ => return None,
+    })
+}
+
+// ------------------------------------------------------------------------------------------
+// fonts: 0 = the repository's cmr10.tfm, 1 = a synthetic font built from PL text
+// ------------------------------------------------------------------------------------------
+
+const CMR10: &[u8] = include_bytes!(concat!(
+    env!("CARGO_MANIFEST_DIR"),
+    "/../../repo/crates/tfm/corpus/computer-modern/cmr10.tfm"
+));
+
+/// A small font whose lig/kern program has a two- and a three-character ligature, a ligature of
+/// two hyphens, a ligature that keeps its left character, kerns (also next to the hyphen), and
+/// whose space parameters are not multiples of anything convenient.
+const SYN_PL: &str = r"
+(FAMILY SYN)
+(DESIGNSIZE R 10.0)
+(FONTDIMEN
+   (SLANT R 0.0)
+   (SPACE R 0.412345)
+   (STRETCH R 0.213579)
+   (SHRINK R 0.097531)
+   (XHEIGHT R 0.43)
+   (QUAD R 1.0)
+   (EXTRASPACE R 0.151515)
+   )
+(LIGTABLE
+   (LABEL C a)
+   (LIG C b C x)
+   (KRN C c R -0.05)
+   (KRN O 55 R 0.03)
+   (STOP)
+   (LABEL C x)
+   (LIG C c C y)
+   (KRN C a R 0.02)
+   (STOP)
+   (LABEL O 55)
+   (LIG O 55 C z)
+   (KRN C a R -0.04)
+   (STOP)
+   (LABEL C d)
+   (/LIG C e C w)
+   (KRN C d R 0.1)
+   (STOP)
+   (LABEL C A)
+   (KRN C B R -0.11)
+   (KRN O 56 R -0.07)
+   (STOP)
+   )
+(CHARACTER C a (CHARWD R 0.50) (CHARHT R 0.43))
+(CHARACTER C b (CHARWD R 0.55) (CHARHT R 0.69))
+(CHARACTER C c (CHARWD R 0.44) (CHARHT R 0.43))
+(CHARACTER C d (CHARWD R 0.56) (CHARHT R 0.69))
+(CHARACTER C e (CHARWD R 0.45) (CHARHT R 0.43))
+(CHARACTER C f (CHARWD R 0.31) (CHARHT R 0.69))
+(CHARACTER C g (CHARWD R 0.51) (CHARHT R 0.43) (CHARDP R 0.19))
+(CHARACTER C h (CHARWD R 0.57) (CHARHT R 0.69))
+(CHARACTER C w (CHARWD R 0.60) (CHARHT R 0.43))
+(CHARACTER C x (CHARWD R 0.80) (CHARHT R 0.69))
+(CHARACTER C y (CHARWD R 1.10) (CHARHT R 0.69))
+(CHARACTER C z (CHARWD R 0.52) (CHARHT R 0.28))
+(CHARACTER C A (CHARWD R 0.75) (CHARHT R 0.68))
+(CHARACTER C B (CHARWD R 0.71) (CHARHT R 0.68))
+(CHARACTER O 55 (CHARWD R 0.33) (CHARHT R 0.25))
+(CHARACTER O 56 (CHARWD R 0.28) (CHARHT R 0.11))
+(CHARACTER O 54 (CHARWD R 0.29) (CHARHT R 0.11) (CHARDP R 0.19))
+(CHARACTER O 73 (CHARWD R 0.27) (CHARHT R 0.43) (CHARDP R 0.19))
+(CHARACTER O 41 (CHARWD R 0.26) (CHARHT R 0.69))
+(CHARACTER O 51 (CHARWD R 0.39) (CHARHT R 0.75) (CHARDP R 0.25))
+(CHARACTER O 72 (CHARWD R 0.25) (CHARHT R 0.43))
+";
+
+struct FontData {
+    file: tfm::File,
+    program: tfm::ligkern::CompiledProgram,
+    /// space, stretch, shrink, extra space (TFM parameters 2, 3, 4, 7)
+    dims: [i32; 4],
+}
+
+fn load_font(bytes: &[u8]) -> FontData {
+    let mut file = tfm::File::deserialize(bytes).0.expect("font deserializes");
+    let program = tfm::ligkern::CompiledProgram::compile_from_tfm_file(&mut file).0;
+    use tfm::NamedParameter as NP;
+    let p = |n: NP| file.named_param_scaled(n).expect("font has seven parameters").0;
+    let dims = [p(NP::Space), p(NP::Stretch), p(NP::Shrink), p(NP::ExtraSpace)];
+    FontData { file, program, dims }
+}
+
+struct Fonts {
+    data: Vec<FontData>,
+    repo: boxworks_text::TfmFontRepo,
+}
+
+impl Fonts {
+    fn new() -> Fonts {
+        let (syn_bytes, warnings) = tfm::algorithms::pl_to_tfm(SYN_PL);
+        if !warnings.is_empty() {
+            eprintln!("c12: the synthetic PL font has warnings: {warnings:?}");
+            std::process::exit(2);
+        }
+        let data = vec![load_font(CMR10), load_font(&syn_bytes)];
+        let mut repo: boxworks_text::TfmFontRepo = Default::default();
+        for (i, d) in data.iter().enumerate() {
+            repo.register_font(i as u32, d.file.clone());
+        }
+        Fonts { data, repo }
+    }
+
+    fn preprocessor(&self, params: boxworks_text::Params, font: u32) -> boxworks_text::TextPreprocessorImpl {
+        let mut tp = boxworks_text::TextPreprocessorImpl::new(params);
+        for (i, d) in self.data.iter().enumerate() {
+            tp.register_font(i as u32, &d.file, d.program.clone());
+        }
+        tp.activate_font(font);
+        tp
+    }
+}
+
+// ------------------------------------------------------------------------------------------
+// JSON <-> values
+// ------------------------------------------------------------------------------------------
+
+fn order_num(o: GlueOrder) -> i64 {
+    match o {
+        GlueOrder::Normal => 0,
+        GlueOrder::Fil => 1,
+        GlueOrder::Fill => 2,
+        GlueOrder::Filll => 3,
+    }
+}
+
+fn order_of(o: i64) -> GlueOrder {
+    match o {
+        0 => GlueOrder::Normal,
+        1 => GlueOrder::Fil,
+        2 => GlueOrder::Fill,
+        _ => GlueOrder::Filll,
+    }
+}
+
+fn glue_json(g: &common::Glue) -> Value {
+    json!({"w": g.width.0, "st": g.stretch.0, "sto": order_num(g.stretch_order),
+           "sh": g.shrink.0, "sho": order_num(g.shrink_order)})
+}
+
+fn glue_from(v: &Value) -> common::Glue {
+    common::Glue {
+        width: Scaled(v["w"].as_i64().unwrap() as i32),
+        stretch: Scaled(v["st"].as_i64().unwrap() as i32),
+        stretch_order: order_of(v["sto"].as_i64().unwrap()),
+        shrink: Scaled(v["sh"].as_i64().unwrap() as i32),
+        shrink_order: order_of(v["sho"].as_i64().unwrap()),
+    }
+}
+
+fn glue_kind_num(k: &ds::GlueKind) -> i64 {
+    match k {
+        ds::GlueKind::Normal => 0,
+        ds::GlueKind::ConditionalMath => 1,
+        ds::GlueKind::Math => 2,
+        ds::GlueKind::AlignedLeader => 3,
+        ds::GlueKind::CenteredLeader => 4,
+        ds::GlueKind::ExpandedLeader => 5,
+    }
+}
+
+fn kern_kind_num(k: ds::KernKind) -> i64 {
+    match k {
+        ds::KernKind::Normal => 0,
+        ds::KernKind::Explicit => 1,
+        ds::KernKind::Accent => 2,
+        ds::KernKind::Math => 3,
+    }
+}
+
+fn kern_kind_of(n: i64) -> ds::KernKind {
+    match n {
+        0 => ds::KernKind::Normal,
+        1 => ds::KernKind::Explicit,
+        2 => ds::KernKind::Accent,
+        _ => ds::KernKind::Math,
+    }
+}
+
+fn codes(s: &str) -> Vec<u32> {
+    s.chars().map(|c| c as u32).collect()
+}
+
+/// A node, field by field.  Nested boxes are identified by their dimensions and the number of nodes
+/// inside (the generators give different boxes different dimensions).
+fn node(e: &ds::Horizontal) -> Value {
+    use ds::Horizontal as H;
+    match e {
+        H::Char(c) => json!({"k":"char","c":c.char as u32,"f":c.font}),
+        H::Ligature(l) => json!({"k":"lig","c":l.char as u32,"f":l.font,"o":codes(&l.original_chars),
+            "lb": l.includes_left_boundary as u8, "rb": l.includes_right_boundary as u8}),
+        H::HBox(b) => json!({"k":"hbox","w":b.width.0,"h":b.height.0,"d":b.depth.0,"s":b.shift_amount.0,"n":b.list.len()}),
+        H::VBox(b) => json!({"k":"vbox","w":b.width.0,"h":b.height.0,"d":b.depth.0,"s":b.shift_amount.0,"n":b.list.len()}),
+        H::Rule(r) => json!({"k":"rule","w":r.width.0,"h":r.height.0,"d":r.depth.0}),
+        H::Glue(g) => {
+            let mut v = glue_json(&g.value);
+            v["k"] = json!("glue");
+            v["gk"] = json!(glue_kind_num(&g.kind));
+            v
+        }
+        H::Kern(k) => json!({"k":"kern","w":k.width.0,"kk":kern_kind_num(k.kind)}),
+        H::Penalty(p) => json!({"k":"penalty","p":p.0}),
+        H::Discretionary(d) => json!({"k":"disc",
+            "pre": d.pre_break.iter().map(|x| node(&x.clone().into())).collect::<Vec<_>>(),
+            "post": d.post_break.iter().map(|x| node(&x.clone().into())).collect::<Vec<_>>(),
+            "rc": d.replace_count}),
+        H::Math(m) => json!({"k":"math","m": matches!(m, ds::Math::After) as u8, "w": 0}),
+        H::Mark(_) => json!({"k":"mark"}),
+        H::Insertion(_) => json!({"k":"ins"}),
+        H::Adjust(_) => json!({"k":"adjust"}),
+        H::Whatsit(_) => json!({"k":"whatsit"}),
+    }
+}
+
+fn nodes(l: &[ds::Horizontal]) -> Vec<Value> {
+    l.iter().map(node).collect()
+}
+
+fn ch(c: u32) -> char {
+    char::from_u32(c).expect("recorded character code")
+}
+
+fn node_from(v: &Value) -> ds::Horizontal {
+    let i = |k: &str| v[k].as_i64().unwrap_or_else(|| panic!("field {k} of {v}")) as i32;
+    match v["k"].as_str().unwrap() {
+        "char" => ds::Char { char: ch(i("c") as u32), font: i("f") as u32 }.into(),
+        "lig" => ds::Ligature {
+            char: ch(i("c") as u32),
+            font: i("f") as u32,
+            original_chars: v["o"].as_array().unwrap().iter().map(|c| ch(c.as_u64().unwrap() as u32)).collect::<String>().into(),
+            includes_left_boundary: i("lb") != 0,
+            includes_right_boundary: i("rb") != 0,
+        }
+        .into(),
+        "hbox" => ds::HBox {
+            width: Scaled(i("w")),
+            height: Scaled(i("h")),
+            depth: Scaled(i("d")),
+            shift_amount: Scaled(i("s")),
+            list: (0..i("n")).map(|_| ds::Penalty(0).into()).collect(),
+            ..Default::default()
+        }
+        .into(),
+        "vbox" => ds::VBox {
+            width: Scaled(i("w")),
+            height: Scaled(i("h")),
+            depth: Scaled(i("d")),
+            shift_amount: Scaled(i("s")),
+            list: (0..i("n")).map(|_| ds::Vertical::Penalty(ds::Penalty(0))).collect(),
+            ..Default::default()
+        }
+        .into(),
+        "rule" => ds::Rule { width: Scaled(i("w")), height: Scaled(i("h")), depth: Scaled(i("d")) }.into(),
+        "glue" => ds::Glue {
+            value: glue_from(v),
+            kind: match i("gk") {
+                0 => ds::GlueKind::Normal,
+                1 => ds::GlueKind::ConditionalMath,
+                2 => ds::GlueKind::Math,
+                3 => ds::GlueKind::AlignedLeader,
+                4 => ds::GlueKind::CenteredLeader,
+                _ => ds::GlueKind::ExpandedLeader,
+            },
+        }
+        .into(),
+        "kern" => ds::Kern { width: Scaled(i("w")), kind: kern_kind_of(i("kk") as i64) }.into(),
+        "penalty" => ds::Penalty(i("p")).into(),
+        "disc" => {
+            let elems = |k: &str| -> Vec<ds::DiscretionaryElem> {
+                v[k].as_array().unwrap().iter().map(|x| node_from(x).try_into().expect("discretionary element")).collect()
+            };
+            ds::Discretionary { pre_break: elems("pre"), post_break: elems("post"), replace_count: i("rc") as u32 }.into()
+        }
+        other => panic!("cannot rebuild a node of kind {other}"),
+    }
+}
+
+fn vnode(e: &ds::Vertical) -> Value {
+    use ds::Vertical as V;
+    match e {
+        V::HBox(b) => json!({"k":"hbox","w":b.width.0,"s":b.shift_amount.0,"list":nodes(&b.list)}),
+        V::Penalty(p) => json!({"k":"penalty","p":p.0}),
+        V::Glue(g) => {
+            let mut v = glue_json(&g.value);
+            v["k"] = json!("vglue");
+            v
+        }
+        V::Kern(k) => json!({"k":"vkern","w":k.width.0}),
+        V::VBox(_) => json!({"k":"vbox"}),
+        V::Rule(_) => json!({"k":"vrule"}),
+        V::Mark(_) => json!({"k":"mark"}),
+        V::Insertion(_) => json!({"k":"ins"}),
+        V::Math(_) => json!({"k":"math"}),
+        V::Whatsit(_) => json!({"k":"whatsit"}),
+    }
+}
+
+// ------------------------------------------------------------------------------------------
+// statistics for the evidence file (measured, never expectations)
+// ------------------------------------------------------------------------------------------
+
+#[derive(Default)]
+struct Stats {
+    seen: std::collections::HashSet<u64>,
+    events: u64,
+    distinct: u64,
+    nontrivial: u64,
+    panics: u64,
+    counts: BTreeMap<String, u64>,
+    longest: usize,
+}
+
+impl Stats {
+    fn bump(&mut self, k: &str, n: u64) {
+        *self.counts.entry(k.to_string()).or_insert(0) += n;
+    }
+    /// returns true when the event is new
+    fn note(&mut self, ev: &Value, nontrivial: bool) -> bool {
+        use std::hash::{Hash, Hasher};
+        let mut h = std::collections::hash_map::DefaultHasher::new();
+        serde_json::to_string(ev).unwrap().hash(&mut h);
+        self.events += 1;
+        if ev.get("panic").is_some() {
+            self.panics += 1;
+        }
+        let new = self.seen.insert(h.finish());
+        if new {
+            self.distinct += 1;
+            if nontrivial {
+                self.nontrivial += 1;
+            }
+        }
+        new
+    }
+    fn write(&self, args: &Args, extra: Value) {
+        if let Some(p) = args.str("stats") {
+            let v = json!({"events": self.events, "distinct": self.distinct, "nontrivial": self.nontrivial,
+                "panics": self.panics, "counts": self.counts, "longest_list": self.longest, "gen": extra});
+            std::fs::write(p, serde_json::to_string(&v).unwrap()).expect("write stats");
+        }
+    }
+}
+
+// ------------------------------------------------------------------------------------------
+// (a) text -> horizontal list
+// ------------------------------------------------------------------------------------------
+
+struct TextCase {
+    font: u32,
+    text: String,
+    /// entries of the space-factor table that differ from plain TeX's
+    codes: Vec<(u8, i32)>,
+    ss: common::Glue,
+    xs: common::Glue,
+}
+
+fn text_params(c: &TextCase) -> boxworks_text::Params {
+    let mut p = boxworks_text::Params::plain_tex_defaults();
+    for &(ch, code) in &c.codes {
+        p.space_factor_codes.0[ch as usize] = code;
+    }
+    p.space_skip = c.ss;
+    p.extra_space_skip = c.xs;
+    p
+}
+
+/// The inputs of the event: words, the space-factor code of every character, the setting.
+fn text_inputs(fonts: &Fonts, c: &TextCase) -> Value {
+    let table = text_params(c).space_factor_codes;
+    let words: Vec<&str> = c.text.split_ascii_whitespace().collect();
+    let sfc: Vec<Vec<i32>> = words
+        .iter()
+        .map(|w| w.chars().map(|ch| table.0.get(ch as usize).copied().unwrap_or(1000)).collect())
+        .collect();
+    let d = fonts.data[c.font as usize].dims;
+    json!({"fn":"text","font":c.font,"text":c.text,
+        "words": words.iter().map(|w| codes(w)).collect::<Vec<_>>(), "sfc": sfc,
+        "codes": c.codes.iter().map(|(a, b)| json!([a, b])).collect::<Vec<_>>(),
+        "S": {"font": {"space": d[0], "stretch": d[1], "shrink": d[2], "extra": d[3]},
+              "ss": glue_json(&c.ss), "xs": glue_json(&c.xs)}})
+}
+
+fn run_text(fonts: &Fonts, c: &TextCase) -> (Value, Option<Vec<ds::Horizontal>>) {
+    let mut ev = text_inputs(fonts, c);
+    let r = catch(|| {
+        let mut tp = fonts.preprocessor(text_params(c), c.font);
+        let mut list = vec![];
+        tp.add_text(&c.text, &mut list);
+        list
+    });
+    match r {
+        Ok(list) => {
+            ev["nodes"] = json!(nodes(&list));
+            (ev, Some(list))
+        }
+        Err((site, msg)) => {
+            ev["panic"] = json!([site, msg]);
+            (ev, None)
+        }
+    }
+}
+
+const CMR_WORDS: &[&str] = &[
+    "difficult", "office", "waffle", "shuffle", "fjord", "AV", "AWAY", "To", "Valley", "well-known", "stone-eyed",
+    "end.", "Mr.", "NASA.", "etc.)", "(yes)", "what?", "so!", "this:", "that;", "and,", "``quoted''", "a--b", "x---y",
+    "the", "of", "a", "I", "it", "paragraph", "hyphenation", "typesetting", "beautiful", "algorithm", "necessary",
+    "fi", "ff", "fl", "ffi", "ffl", "-", "--", "A.", "B.)", "O.K.", "'tis", "don't", "e.g.,", "V.", "W.;",
+];
+const SYN_WORDS: &[&str] = &[
+    "ab", "abc", "abca", "aab", "cab", "de", "dde", "ded", "dd", "AB", "A.", "BA.", "a-a", "a--a", "---", "-", "ab-",
+    "abc-de", "f", "gh", "hg", "a", "b.", "c,", "d;", "e!", "f)", "g:", "hA.", "fab", "cabde", "x", "y", "ac", "xa", "a-",
+];
+const SF_VALUES: &[i32] = &[0, 1, 500, 999, 1000, 1001, 1250, 1999, 2000, 3000, 32767];
+
+fn random_glue(rng: &mut Rng, allow_orders: bool) -> common::Glue {
+    let dim = |rng: &mut Rng| -> i32 {
+        match rng.below(6) {
+            0 => 0,
+            1 => rng.range(1, 40) as i32,
+            2 => -(rng.range(1, 200000) as i32),
+            _ => rng.range(1, 500000) as i32,
+        }
+    };
+    let ord = |rng: &mut Rng| if allow_orders && rng.chance(1, 4) { order_of(rng.range(1, 3)) } else { GlueOrder::Normal };
+    common::Glue {
+        width: Scaled(dim(rng)),
+        stretch: Scaled(dim(rng)),
+        stretch_order: ord(rng),
+        shrink: Scaled(dim(rng)),
+        shrink_order: ord(rng),
+    }
+}
+
+/// \spaceskip / \xspaceskip: zero, "zero with an order" (still zero_glue for TeX), or a real glue
+fn random_skip(rng: &mut Rng) -> common::Glue {
+    match rng.below(8) {
+        0..=2 => common::Glue::ZERO,
+        3 => common::Glue { stretch_order: GlueOrder::Fil, shrink_order: GlueOrder::Fill, ..common::Glue::ZERO },
+        4 => common::Glue { width: Scaled(rng.range(100000, 400000) as i32), ..common::Glue::ZERO },
+        _ => {
+            let mut g = random_glue(rng, true);
+            if rng.chance(1, 2) {
+                g.width = Scaled(rng.range(100000, 400000) as i32);
+            }
+            g
+        }
+    }
+}
+
+fn random_text_case(rng: &mut Rng, maxwords: u64) -> TextCase {
+    let font = if rng.chance(2, 3) { 0 } else { 1 };
+    let pool = if font == 0 { CMR_WORDS } else { SYN_WORDS };
+    let letters: &[u8] = if font == 0 { b"abcdefghijklmnopqrstuvwxyzAVWTY.,;:!?)'-" } else { b"abcdefghAB-.,;!):" };
+    let nwords = 1 + rng.below(maxwords);
+    let mut text = String::new();
+    for w in 0..nwords {
+        if w > 0 {
+            text.push(' ');
+            if rng.chance(1, 8) {
+                text.push(if rng.chance(1, 2) { ' ' } else { '\n' });
+            }
+        }
+        if rng.chance(3, 4) {
+            text.push_str(*rng.pick(pool));
+        } else {
+            for _ in 0..rng.range(1, 7) {
+                text.push(*rng.pick(letters) as char);
+            }
+        }
+    }
+    let mut codes = vec![];
+    if rng.chance(1, 2) {
+        for _ in 0..rng.range(1, 8) {
+            codes.push((*rng.pick(letters), *rng.pick(SF_VALUES)));
+        }
+    }
+    TextCase { font, text, codes, ss: random_skip(rng), xs: random_skip(rng) }
+}
+
+fn text_nontrivial(ev: &Value) -> bool {
+    // at least one blank after a character whose code is not 1000, or a non-zero \spaceskip / \xspaceskip
+    let words = ev["sfc"].as_array().map(|a| a.len()).unwrap_or(0);
+    let special = ev["sfc"].as_array().map(|a| a.iter().any(|w| w.as_array().unwrap().iter().any(|c| c != 1000))).unwrap_or(false);
+    let skips = ["ss", "xs"].iter().any(|k| ["w", "st", "sh"].iter().any(|f| ev["S"][k][f] != 0));
+    words >= 2 && (special || skips)
+}
+
+fn texts(args: &Args) -> i32 {
+    quiet_panics();
+    let fonts = Fonts::new();
+    let mut rng = Rng::new(args.num("seed", 1));
+    let n: u64 = args.num("n", 1000);
+    let mut out = Out::new(args.str("out"));
+    let mut st = Stats::default();
+    // the repository's own pinned examples first (boxworks-text's `spacing_tests`): validates the
+    // specification against what the maintainers checked with real TeX
+    for w in ["a;", "a,", "a.", "a:", "))", ")A", ")a", ").", "A)", "AA", "Aa", "A.", "a)", "aA", "aa", ".)", ".A", ".a", ".."] {
+        let c = TextCase { font: 0, text: format!("{w} a"), codes: vec![], ss: common::Glue::ZERO, xs: common::Glue::ZERO };
+        let (ev, _) = run_text(&fonts, &c);
+        st.note(&ev, text_nontrivial(&ev));
+        out.line(&ev);
+    }
+    // ... and its preprocessor tests (ligatures, kerns, the ragged-right \spaceskip / \xspaceskip setting)
+    let rr_ss = common::Glue { width: Scaled::parse_from_string("3.33298pt").unwrap(), ..common::Glue::ZERO };
+    let rr_xs = common::Glue { width: Scaled::parse_from_string("5.0pt").unwrap(), ..common::Glue::ZERO };
+    for (t, ss, xs) in [("second", common::Glue::ZERO, common::Glue::ZERO), ("sec ond", common::Glue::ZERO, common::Glue::ZERO),
+        ("AO AV", common::Glue::ZERO, common::Glue::ZERO), ("ff ffi", common::Glue::ZERO, common::Glue::ZERO), ("a b. c", rr_ss, rr_xs)] {
+        let c = TextCase { font: 0, text: t.to_string(), codes: vec![], ss, xs };
+        let (ev, _) = run_text(&fonts, &c);
+        st.note(&ev, text_nontrivial(&ev));
+        out.line(&ev);
+    }
+    for _ in 0..n {
+        let c = random_text_case(&mut rng, 9);
+        let (ev, list) = run_text(&fonts, &c);
+        let nt = text_nontrivial(&ev);
+        if st.note(&ev, nt) {
+            if let Some(l) = &list {
+                st.longest = st.longest.max(l.len());
+                st.bump("glue_nodes", l.iter().filter(|e| matches!(e, ds::Horizontal::Glue(_))).count() as u64);
+                st.bump("ligatures", l.iter().filter(|e| matches!(e, ds::Horizontal::Ligature(_))).count() as u64);
+                st.bump("kerns", l.iter().filter(|e| matches!(e, ds::Horizontal::Kern(_))).count() as u64);
+                st.bump("discretionaries", l.iter().filter(|e| matches!(e, ds::Horizontal::Discretionary(_))).count() as u64);
+            }
+            st.bump(if c.font == 0 { "font_cmr10" } else { "font_synthetic" }, 1);
+        }
+        out.line(&ev);
+    }
+    out.flush();
+    st.write(args, json!({"seed": args.num::<u64>("seed", 1), "n": n}));
+    eprintln!("c12-text: {} events ({} distinct, {} non-trivial, {} panics)", st.events, st.distinct, st.nontrivial, st.panics);
+    0
+}
+
+// ------------------------------------------------------------------------------------------
+// (b) horizontal list -> lines
+// ------------------------------------------------------------------------------------------
+
+/// Observes the breakpoints through the public debug::Logger callbacks: every new active node
+/// belongs to the element of the feasible breakpoint reported just before it; the chosen
+/// breakpoints are the chain of previous-node links from the selected node.
+#[derive(Default)]
+struct BpLogger {
+    cur_elem: usize,
+    passive: Vec<(usize, usize)>,
+    selected: Option<usize>,
+    attempts: u32,
+    inconsistent: bool,
+}
+
+impl kp::debug::Logger for BpLogger {
+    fn log_attempt(&mut self, _attempt: kp::debug::Attempt) {
+        self.passive.clear();
+        self.passive.push((0, 0));
+        self.selected = None;
+        self.attempts += 1;
+    }
+    fn log_feasible_breakpoint(&mut self, _list: &[ds::Horizontal], fb: kp::debug::FeasibleBreakpoint) {
+        self.cur_elem = fb.elem_index;
+    }
+    fn log_new_active_node(&mut self, an: kp::debug::NewActiveNode) {
+        if an.node_index != self.passive.len() {
+            self.inconsistent = true;
+        }
+        self.passive.push((self.cur_elem, an.previous_node_index));
+    }
+    fn log_selected_node(&mut self, node_index: usize) {
+        self.selected = Some(node_index);
+    }
+}
+
+impl BpLogger {
+    fn breakpoints(&self) -> Option<Vec<usize>> {
+        if self.inconsistent {
+            return None;
+        }
+        let mut v = vec![];
+        let mut i = self.selected?;
+        while i > 0 {
+            let (elem, prev) = *self.passive.get(i)?;
+            v.push(elem);
+            if prev >= i {
+                return None;
+            }
+            i = prev;
+        }
+        v.reverse();
+        Some(v)
+    }
+}
+
+struct NoHyphenation;
+impl boxworks::Hyphenator for NoHyphenation {
+    fn hyphenate(&self, _list: &mut Vec<ds::Horizontal>) {}
+}
+
+struct ParaCase {
+    orig: Vec<ds::Horizontal>,
+    params: kp::Params,
+    widths: Vec<i32>,
+    indents: Vec<i32>,
+    /// 0 = no-op hyphenator, 1 = plain TeX's patterns with the lig/kern program of font `hfont`
+    hyph: u8,
+    hfont: u32,
+    words: Option<Vec<Vec<u32>>>,
+}
+
+fn params_json(c: &ParaCase) -> (Value, Value) {
+    let p = &c.params;
+    (
+        json!({"ls": glue_json(&p.left_skip), "rs": glue_json(&p.right_skip), "pfs": glue_json(&p.par_fill_skip),
+               "ilp": p.inter_line_penalty, "club": p.club_penalty, "widow": p.final_widow_penalty,
+               "broken": p.broken_penalty, "widths": c.widths, "indents": c.indents}),
+        json!({"adj": p.adj_demerits, "dhd": p.double_hyphen_demerits, "es": p.emergency_stretch.0,
+               "exhp": p.ex_hyphen_penalty, "fhd": p.final_hyphen_demerits, "hp": p.hyphen_penalty,
+               "lp": p.line_penalty, "loose": p.looseness, "pretol": p.pre_tolerance, "tol": p.tolerance,
+               "hfont": c.hfont}),
+    )
+}
+
+fn run_para(fonts: &Fonts, c: &ParaCase) -> Value {
+    let (pj, kj) = params_json(c);
+    let mut ev = json!({"fn":"para","orig":nodes(&c.orig),"hyph":c.hyph,"P":pj,"K":kj});
+    if let Some(w) = &c.words {
+        ev["words"] = json!(w);
+    }
+    let widths: Vec<Scaled> = c.widths.iter().map(|w| Scaled(*w)).collect();
+    let indents: Vec<Scaled> = c.indents.iter().map(|w| Scaled(*w)).collect();
+    let r = catch(|| {
+        let mut logger = BpLogger::default();
+        let real;
+        let hyphenator: &dyn boxworks::Hyphenator = if c.hyph == 1 {
+            real = boxworks_hyphenate::Hyphenator::plain_tex_en_us(fonts.data[c.hfont as usize].program.clone());
+            &real
+        } else {
+            &NoHyphenation
+        };
+        let mut list = c.orig.clone();
+        let mut v = vec![];
+        let lb = kp::LineBreaker {
+            params: &c.params,
+            line_widths: &widths,
+            line_indents: &indents,
+            debug_logger: Some(&mut logger),
+            hyphenator,
+        };
+        lb.break_line(&fonts.repo, &mut v, &mut list);
+        (list, v, logger.breakpoints(), logger.attempts)
+    });
+    match r {
+        Ok((list, v, bps, attempts)) => {
+            let Some(bps) = bps else {
+                eprintln!("c12: the debug::Logger callbacks did not yield the chosen breakpoints");
+                std::process::exit(2);
+            };
+            ev["list"] = json!(nodes(&list));
+            ev["bps"] = json!(bps);
+            ev["passes"] = json!(attempts);
+            ev["v"] = json!(v.iter().map(vnode).collect::<Vec<_>>());
+        }
+        Err((site, msg)) => {
+            ev["panic"] = json!([site, msg]);
+        }
+    }
+    ev
+}
+
+/// Measured features of a para event (for the evidence file and the non-triviality rule).
+fn note_para(st: &mut Stats, ev: &Value) {
+    let lines = ev["bps"].as_array().map(|a| a.len()).unwrap_or(0);
+    let new = st.note(ev, lines >= 2);
+    if !new || ev.get("panic").is_some() {
+        return;
+    }
+    let list = ev["list"].as_array().unwrap();
+    st.longest = st.longest.max(list.len());
+    st.bump("lines", lines as u64);
+    if ev["hyph"] == 1 && ev["list"].as_array().unwrap().len() != ev["orig"].as_array().unwrap().len() + 1
+        && ev["list"].as_array().unwrap().len() != ev["orig"].as_array().unwrap().len() + 2
+    {
+        st.bump("paragraphs_hyphenated", 1);
+    }
+    if ev["passes"].as_u64().unwrap_or(1) > 1 {
+        st.bump("paragraphs_needing_second_pass", 1);
+    }
+    let bps: Vec<usize> = ev["bps"].as_array().unwrap().iter().map(|b| b.as_u64().unwrap() as usize).collect();
+    let discardable = |n: &Value| n["k"] == "glue" || n["k"] == "penalty" || (n["k"] == "kern" && n["kk"] == 1);
+    for (j, &b) in bps.iter().enumerate() {
+        let kind = list.get(b).map(|n| n["k"].as_str().unwrap().to_string()).unwrap_or_else(|| "end".into());
+        st.bump(&format!("breaks_at_{kind}"), 1);
+        if let Some(n) = list.get(b) {
+            let mut after = b + 1;
+            if n["k"] == "disc" {
+                after += n["rc"].as_u64().unwrap() as usize;
+                if !n["post"].as_array().unwrap().is_empty() {
+                    st.bump("breaks_with_post_break_material", 1);
+                    continue;
+                }
+            }
+            if let (Some(x), Some(&nb)) = (list.get(after), bps.get(j + 1)) {
+                if discardable(x) && after != nb {
+                    st.bump("breaks_followed_by_discardable", 1);
+                }
+                if discardable(x) && after == nb {
+                    st.bump("breaks_followed_by_breakpoint", 1);
+                }
+            }
+        }
+    }
+}
+
+// ---- generators ---------------------------------------------------------------------------
+
+fn pt(x: f64) -> i32 {
+    (x * 65536.0).round() as i32
+}
+
+fn random_kp_params(rng: &mut Rng) -> kp::Params {
+    let mut p = kp::Params::plain_tex_defaults();
+    let pen = |rng: &mut Rng| -> i32 {
+        match rng.below(7) {
+            0 | 1 => 0,
+            2 => -(rng.range(1, 300) as i32),
+            3 => 10000,
+            _ => rng.range(1, 999) as i32,
+        }
+    };
+    p.inter_line_penalty = pen(rng);
+    p.club_penalty = pen(rng);
+    p.final_widow_penalty = pen(rng);
+    p.broken_penalty = pen(rng);
+    if rng.chance(1, 6) {
+        // sums that cancel
+        p.inter_line_penalty = 0;
+        p.final_widow_penalty = -p.club_penalty;
+    }
+    let skip = |rng: &mut Rng| -> common::Glue {
+        match rng.below(6) {
+            0 | 1 => common::Glue::ZERO,
+            2 => common::Glue { stretch_order: GlueOrder::Fil, ..common::Glue::ZERO }, // zero_glue with an order
+            3 => common::Glue { width: Scaled(rng.range(pt(1.0) as i64, pt(12.0) as i64) as i32), ..common::Glue::ZERO },
+            4 => common::Glue { stretch: Scaled(pt(20.0) + rng.range(0, 9) as i32), ..common::Glue::ZERO },
+            _ => common::Glue {
+                width: Scaled(rng.range(0, pt(6.0) as i64) as i32),
+                stretch: Scaled(rng.range(0, pt(9.0) as i64) as i32),
+                stretch_order: if rng.chance(1, 4) { GlueOrder::Fil } else { GlueOrder::Normal },
+                shrink: Scaled(rng.range(0, pt(2.0) as i64) as i32),
+                shrink_order: GlueOrder::Normal,
+            },
+        }
+    };
+    p.left_skip = skip(rng);
+    p.right_skip = skip(rng);
+    match rng.below(5) {
+        0 => p.par_fill_skip = common::Glue::ZERO,
+        1 => p.par_fill_skip = common::Glue { width: Scaled(pt(7.5)), stretch: Scaled(pt(3.25)), ..common::Glue::ZERO },
+        _ => {}
+    }
+    p.tolerance = *rng.pick(&[200, 200, 1000, 10000]);
+    p.pre_tolerance = *rng.pick(&[100, 100, -1, 10000]);
+    if rng.chance(1, 5) {
+        p.emergency_stretch = Scaled(pt(10.0));
+    }
+    if rng.chance(1, 8) {
+        p.looseness = *rng.pick(&[-1, 1]);
+    }
+    if rng.chance(1, 6) {
+        p.hyphen_penalty = *rng.pick(&[0, 500, 10000]);
+        p.ex_hyphen_penalty = *rng.pick(&[0, -10000, 200]);
+    }
+    p
+}
+
+fn random_geometry(rng: &mut Rng, lo: f64, hi: f64) -> (Vec<i32>, Vec<i32>) {
+    let nw = *rng.pick(&[1, 1, 2, 3, 4]);
+    let widths = (0..nw).map(|_| rng.range(pt(lo) as i64, pt(hi) as i64) as i32).collect();
+    let ni = *rng.pick(&[0, 0, 1, 2, 3, 5]);
+    let indents = (0..ni).map(|_| rng.range(-(pt(5.0) as i64), pt(30.0) as i64) as i32).collect();
+    (widths, indents)
+}
+
+fn text_para(rng: &mut Rng, fonts: &Fonts) -> Option<ParaCase> {
+    let tc = random_text_case(rng, 28);
+    let (ev, list) = run_text(fonts, &tc);
+    let list = list?;
+    let hyph = if tc.font == 0 && rng.chance(1, 2) { 1 } else { 0 };
+    let (lo, hi) = if rng.chance(1, 3) { (40.0, 90.0) } else { (80.0, 260.0) };
+    let (widths, indents) = random_geometry(rng, lo, hi);
+    let words = ev["words"].as_array().unwrap().iter()
+        .map(|w| w.as_array().unwrap().iter().map(|c| c.as_u64().unwrap() as u32).collect()).collect();
+    Some(ParaCase { orig: list, params: random_kp_params(rng), widths, indents, hyph, hfont: tc.font, words: Some(words) })
+}
+
+/// Hand-built lists: every node kind post_line_break distinguishes, runs of consecutive discardable
+/// items, discretionaries with pre-/post-break material and replacement counts.  A running counter
+/// goes into every dimension / penalty so that no two nodes of a list are equal.
+struct ListGen<'a> {
+    rng: &'a mut Rng,
+    n: i32,
+}
+
+impl ListGen<'_> {
+    fn uniq(&mut self) -> i32 {
+        self.n += 1;
+        self.n
+    }
+    fn chr(&mut self) -> ds::Horizontal {
+        let font = if self.rng.chance(2, 3) { 0 } else { 1 };
+        let letters: &[u8] = if font == 0 { b"abcdefghijklmnopqrstuvwxyz" } else { b"abcdefghwxyzAB" };
+        let c = letters[(self.uniq() as usize * 7 + self.rng.below(3) as usize) % letters.len()] as char;
+        ds::Char { char: c, font }.into()
+    }
+    fn lig(&mut self) -> ds::Horizontal {
+        let (c, o) = *self.rng.pick(&[('\u{c}', "fi"), ('\u{b}', "ff"), ('\u{e}', "ffi"), ('\u{7b}', "--")]);
+        ds::Ligature { char: c, font: 0, original_chars: o.into(), includes_left_boundary: false, includes_right_boundary: false }.into()
+    }
+    fn glue(&mut self) -> ds::Horizontal {
+        let u = self.uniq();
+        let g = match self.rng.below(6) {
+            0 => common::Glue { width: Scaled(pt(3.0) + u), stretch: Scaled(pt(1.5)), shrink: Scaled(pt(1.0)), ..common::Glue::ZERO },
+            1 => common::Glue { width: Scaled(u), stretch: Scaled(pt(1.0)), stretch_order: GlueOrder::Fil, ..common::Glue::ZERO },
+            2 => common::Glue { width: Scaled(-u), ..common::Glue::ZERO },
+            3 => common::Glue { width: Scaled(pt(10.0) + u), stretch: Scaled(pt(20.0)), shrink: Scaled(pt(5.0)), ..common::Glue::ZERO },
+            _ => common::Glue { width: Scaled(pt(3.33) + u), stretch: Scaled(pt(1.66) + u), shrink: Scaled(pt(1.11) + u), ..common::Glue::ZERO },
+        };
+        ds::Glue { value: g, kind: ds::GlueKind::Normal }.into()
+    }
+    fn penalty(&mut self) -> ds::Horizontal {
+        let u = self.uniq();
+        ds::Penalty(match self.rng.below(8) {
+            0 => -10000,
+            1 => 10000,
+            2 => -10000 - u,
+            3 => -u,
+            _ => u * 3,
+        })
+        .into()
+    }
+    fn kern(&mut self) -> ds::Horizontal {
+        let u = self.uniq();
+        let kind = *self.rng.pick(&[ds::KernKind::Explicit, ds::KernKind::Explicit, ds::KernKind::Normal, ds::KernKind::Accent]);
+        ds::Kern { width: Scaled(if self.rng.chance(1, 4) { -u } else { pt(0.5) + u }), kind }.into()
+    }
+    fn boxlike(&mut self) -> ds::Horizontal {
+        let u = self.uniq();
+        if self.rng.chance(1, 2) {
+            ds::Rule { width: Scaled(pt(2.0) + u), height: Scaled(pt(1.0) + u), depth: Scaled(u) }.into()
+        } else {
+            ds::HBox { width: Scaled(pt(6.0) + u), height: Scaled(pt(4.0) + u), depth: Scaled(u), shift_amount: Scaled(u % 3),
+                       list: vec![ds::Char { char: 'q', font: 0 }.into()], ..Default::default() }.into()
+        }
+    }
+    fn delem(&mut self) -> ds::DiscretionaryElem {
+        let u = self.uniq();
+        match self.rng.below(5) {
+            0 => ds::DiscretionaryElem::Kern(ds::Kern { width: Scaled(u), kind: ds::KernKind::Normal }),
+            1 => ds::DiscretionaryElem::Char(ds::Char { char: '-', font: 0 }),
+            2 => ds::DiscretionaryElem::Rule(ds::Rule { width: Scaled(pt(1.0) + u), height: Scaled(u), depth: Scaled(0) }),
+            _ => match self.chr() {
+                ds::Horizontal::Char(c) => ds::DiscretionaryElem::Char(c),
+                _ => unreachable!(),
+            },
+        }
+    }
+    /// a discretionary followed by the nodes it replaces
+    fn disc(&mut self, out: &mut Vec<ds::Horizontal>) {
+        let pre = (0..*self.rng.pick(&[0, 1, 1, 2])).map(|_| self.delem()).collect();
+        let post = (0..*self.rng.pick(&[0, 0, 1, 2])).map(|_| self.delem()).collect();
+        let rc = *self.rng.pick(&[0, 0, 1, 2]);
+        out.push(ds::Discretionary { pre_break: pre, post_break: post, replace_count: rc }.into());
+        for _ in 0..rc {
+            let e = match self.rng.below(4) {
+                0 => { let u = self.uniq(); ds::Kern { width: Scaled(u), kind: ds::KernKind::Normal }.into() }
+                1 => self.lig(),
+                _ => self.chr(),
+            };
+            out.push(e);
+        }
+    }
+    fn list(&mut self, maxlen: usize) -> Vec<ds::Horizontal> {
+        let len = 1 + self.rng.below(maxlen as u64) as usize;
+        let mut l = vec![];
+        while l.len() < len {
+            match self.rng.below(20) {
+                0..=7 => { let e = self.chr(); l.push(e) }
+                8..=11 => { let e = self.glue(); l.push(e) }
+                12 | 13 => { let e = self.penalty(); l.push(e) }
+                14 | 15 => { let e = self.kern(); l.push(e) }
+                16 | 17 => self.disc(&mut l),
+                18 => { let e = self.lig(); l.push(e) }
+                _ => { let e = self.boxlike(); l.push(e) }
+            }
+        }
+        l
+    }
+}
+
+fn handmade_para(rng: &mut Rng) -> ParaCase {
+    let maxlen = *rng.pick(&[6, 12, 20, 30]);
+    let orig = ListGen { rng, n: 0 }.list(maxlen);
+    let (lo, hi) = *rng.pick(&[(8.0, 25.0), (15.0, 60.0), (40.0, 200.0)]);
+    let (widths, indents) = random_geometry(rng, lo, hi);
+    let mut params = random_kp_params(rng);
+    if rng.chance(1, 2) {
+        params.tolerance = 10000;
+    }
+    ParaCase { orig, params, widths, indents, hyph: 0, hfont: 0, words: None }
+}
+
+fn paras(args: &Args) -> i32 {
+    quiet_panics();
+    let fonts = Fonts::new();
+    let mut rng = Rng::new(args.num("seed", 1));
+    let n: u64 = args.num("n", 1000);
+    let text_share: u64 = args.num("text", 40); // per cent of text-derived paragraphs
+    let mut out = Out::new(args.str("out"));
+    let mut st = Stats::default();
+    let mut made = 0;
+    while made < n {
+        let c = if rng.below(100) < text_share {
+            match text_para(&mut rng, &fonts) {
+                Some(c) => c,
+                None => continue, // add_text panicked: reported by the text events
+            }
+        } else {
+            handmade_para(&mut rng)
+        };
+        let ev = run_para(&fonts, &c);
+        note_para(&mut st, &ev);
+        st.bump(if c.words.is_some() { "from_text" } else { "hand_built" }, 1);
+        out.line(&ev);
+        made += 1;
+    }
+    out.flush();
+    st.write(args, json!({"seed": args.num::<u64>("seed", 1), "n": n, "text_share": text_share}));
+    eprintln!("c12-para: {} events ({} distinct, {} with >= 2 lines, {} panics)", st.events, st.distinct, st.nontrivial, st.panics);
+    0
+}
+
+/// Every list of at most `maxlen` nodes over a small alphabet (positions make the nodes distinct),
+/// under a narrow and a wide measure and two parameter settings.
+fn exhaustive(args: &Args) -> i32 {
+    quiet_panics();
+    let fonts = Fonts::new();
+    let maxlen: usize = args.num("maxlen", 4);
+    let mut out = Out::new(args.str("out"));
+    let mut st = Stats::default();
+    // alphabet: a maker per kind, given the position
+    type Maker = fn(i32, &mut Vec<ds::Horizontal>);
+    let makers: &[Maker] = &[
+        |i, l| l.push(ds::Char { char: (b'a' + (i as u8 % 26)) as char, font: 0 }.into()),
+        |i, l| l.push(ds::Glue { value: common::Glue { width: Scaled(pt(3.0) + i), stretch: Scaled(pt(2.0)), shrink: Scaled(pt(1.0)), ..common::Glue::ZERO }, kind: ds::GlueKind::Normal }.into()),
+        |i, l| l.push(ds::Penalty(i).into()),
+        |i, l| l.push(ds::Penalty(-10000 - i).into()),
+        |i, l| l.push(ds::Kern { width: Scaled(pt(1.0) + i), kind: ds::KernKind::Explicit }.into()),
+        |i, l| l.push(ds::Kern { width: Scaled(pt(1.0) + i), kind: ds::KernKind::Normal }.into()),
+        |_, l| l.push(ds::Discretionary::default().into()),
+        |i, l| {
+            l.push(ds::Discretionary {
+                pre_break: vec![ds::Char { char: '-', font: 0 }.into()],
+                post_break: vec![ds::Char { char: (b'A' + (i as u8 % 26)) as char, font: 0 }.into()],
+                replace_count: 1,
+            }.into());
+            l.push(ds::Char { char: (b'n' + (i as u8 % 10)) as char, font: 0 }.into());
+        },
+    ];
+    let n = makers.len() as u64;
+    let mut settings = vec![];
+    {
+        let mut a = kp::Params::plain_tex_defaults();
+        a.tolerance = 10000;
+        a.inter_line_penalty = 1;
+        a.club_penalty = 10;
+        a.final_widow_penalty = 100;
+        a.broken_penalty = 1000;
+        settings.push((a, vec![pt(6.0)], vec![]));
+        let mut b = kp::Params::plain_tex_defaults();
+        b.tolerance = 10000;
+        b.club_penalty = 7;
+        b.final_widow_penalty = -7;
+        b.broken_penalty = 0;
+        b.left_skip = common::Glue { width: Scaled(pt(1.0)), ..common::Glue::ZERO };
+        b.right_skip = common::Glue { stretch: Scaled(pt(30.0)), ..common::Glue::ZERO };
+        settings.push((b, vec![pt(11.0), pt(7.0)], vec![pt(1.0), pt(2.0), pt(3.0)]));
+    }
+    let mut lists = 0u64;
+    for len in 1..=maxlen {
+        for code in 0..n.pow(len as u32) {
+            let mut c = code;
+            let mut list = vec![];
+            for pos in 0..len {
+                makers[(c % n) as usize](pos as i32 + 1, &mut list);
+                c /= n;
+            }
+            lists += 1;
+            for (params, widths, indents) in &settings {
+                let case = ParaCase {
+                    orig: list.clone(),
+                    params: clone_params(params),
+                    widths: widths.clone(),
+                    indents: indents.clone(),
+                    hyph: 0,
+                    hfont: 0,
+                    words: None,
+                };
+                let ev = run_para(&fonts, &case);
+                note_para(&mut st, &ev);
+                out.line(&ev);
+            }
+        }
+    }
+    out.flush();
+    st.write(args, json!({"alphabet": n, "lists": lists, "maxlen": maxlen, "settings": settings.len()}));
+    eprintln!("c12-exh: {} lists, {} events ({} with >= 2 lines, {} panics)", lists, st.events, st.nontrivial, st.panics);
+    0
+}
+
+fn clone_params(p: &kp::Params) -> kp::Params {
+    kp::Params {
+        adj_demerits: p.adj_demerits,
+        broken_penalty: p.broken_penalty,
+        double_hyphen_demerits: p.double_hyphen_demerits,
+        club_penalty: p.club_penalty,
+        emergency_stretch: p.emergency_stretch,
+        ex_hyphen_penalty: p.ex_hyphen_penalty,
+        final_hyphen_demerits: p.final_hyphen_demerits,
+        final_widow_penalty: p.final_widow_penalty,
+        hyphen_penalty: p.hyphen_penalty,
+        inter_line_penalty: p.inter_line_penalty,
+        left_skip: p.left_skip,
+        line_penalty: p.line_penalty,
+        looseness: p.looseness,
+        par_fill_skip: p.par_fill_skip,
+        pre_tolerance: p.pre_tolerance,
+        right_skip: p.right_skip,
+        tolerance: p.tolerance,
+    }
+}
+
+// ------------------------------------------------------------------------------------------
+// the repository's golden paragraphs: vertical lists written from real TeX's log
+// ------------------------------------------------------------------------------------------
+
+const GOLDEN_DIR: &str = concat!(env!("CARGO_MANIFEST_DIR"), "/../../repo/crates/boxworks-knuthplass/testdata");
+
+/// The cases of boxworks-knuthplass's own test table (input, widths, parameters, want file).  Each
+/// is run the way that test runs it (add_word + add_space per word, plain TeX's hyphenator) and the
+/// event also carries `tex`: the vertical list of the want file, i.e. what real TeX made of the same
+/// paragraph.  There the *specification* is on trial: Trace_PostLineBreak requires
+/// PLB(list, bps) = tex as well.
+fn goldens(args: &Args) -> i32 {
+    quiet_panics();
+    let fonts = Fonts::new();
+    let dir = args.str("dir").unwrap_or(GOLDEN_DIR);
+    let mut out = Out::new(args.str("out"));
+    let mut st = Stats::default();
+    let d = |s: &str| Scaled::parse_from_string(s).expect("dimension");
+    type Tweak = fn(&mut kp::Params, &mut boxworks_text::Params);
+    let ragged: Tweak = |p, t| {
+        t.space_skip = common::Glue { width: Scaled::parse_from_string("3.33298pt").unwrap(), ..Default::default() };
+        t.extra_space_skip = common::Glue { width: Scaled::parse_from_string("5.0pt").unwrap(), ..Default::default() };
+        p.right_skip = common::Glue { stretch: Scaled::parse_from_string("20.00003pt").unwrap(), ..Default::default() };
+    };
+    let cases: Vec<(&str, &[&str], Tweak, &str)> = vec![
+        ("wolf_hall_input.txt", &["5in"], |_, _| {}, "wolf_hall_5in_want.txt"),
+        ("wolf_hall_input.txt", &["3in"], |_, _| {}, "wolf_hall_3in_want.txt"),
+        ("wolf_hall_input.txt", &["2in"], |_, _| {}, "wolf_hall_2in_want.txt"),
+        ("wolf_hall_input.txt", &["1in"], |_, _| {}, "wolf_hall_1in_want.txt"),
+        ("wolf_hall_input.txt", &["1in"], |p, _| p.emergency_stretch = Scaled::parse_from_string("10.0pt").unwrap(), "wolf_hall_emergency_stretch_want.txt"),
+        ("wolf_hall_input.txt", &["3in"], |p, _| p.emergency_stretch = Scaled::parse_from_string("10.0pt").unwrap(), "wolf_hall_emergency_stretch_2_want.txt"),
+        ("wolf_hall_input.txt", &["5in", "4in", "3in", "4in"], |_, _| {}, "wolf_hall_variable_widths_want.txt"),
+        ("farewell_to_arms_input.txt", &["3in"], |p, _| p.looseness = 1, "farewell_to_arms_looseness_plus_1_want.txt"),
+        ("farewell_to_arms_input.txt", &["5in"], |p, _| p.looseness = -1, "farewell_to_arms_looseness_minus_1_want.txt"),
+        ("wolf_hall_input.txt", &["5in"], ragged, "wolf_hall_ragged_right.txt"),
+        ("wolf_hall_input.txt", &["5in"], |p, t| {
+            t.space_skip = common::Glue { width: Scaled::parse_from_string("3.33298pt").unwrap(), ..Default::default() };
+            t.extra_space_skip = common::Glue { width: Scaled::parse_from_string("5.0pt").unwrap(), ..Default::default() };
+            p.right_skip = common::Glue { width: Scaled::parse_from_string("20.0pt").unwrap(),
+                stretch: Scaled::parse_from_string("20.00003pt").unwrap(), ..Default::default() };
+        }, "wolf_hall_ragged_right_margin.txt"),
+        ("wolf_hall_input.txt", &["3in"], |p, _| p.adj_demerits = -10000, "wolf_hall_adj_demerits_want.txt"),
+        ("wolf_hall_input.txt", &["3in"], |p, _| p.broken_penalty = 500, "wolf_hall_broken_penalty_want.txt"),
+        ("wolf_hall_input.txt", &["3in"], |p, _| p.club_penalty = 1000, "wolf_hall_club_penalty_want.txt"),
+        ("wolf_hall_input.txt", &["3in"], |p, _| p.double_hyphen_demerits = -100000, "wolf_hall_double_hyphen_demerits_want.txt"),
+        ("wolf_hall_stone_eyed_input.txt", &["3in"], |_, _| {}, "wolf_hall_stone_eyed_want.txt"),
+        ("wolf_hall_stone_eyed_input.txt", &["3in"], |p, _| p.ex_hyphen_penalty = -10000, "wolf_hall_ex_hyphen_penalty_want.txt"),
+        ("wolf_hall_input.txt", &["3in"], |p, _| p.final_hyphen_demerits = 0, "wolf_hall_final_hyphen_demerits_want.txt"),
+        ("wolf_hall_input.txt", &["3in"], |p, _| p.final_widow_penalty = 1000, "wolf_hall_final_widow_penalty_want.txt"),
+        ("wolf_hall_input.txt", &["3in"], |p, _| p.hyphen_penalty = 10000, "wolf_hall_hyphen_penalty_want.txt"),
+        ("wolf_hall_input.txt", &["3in"], |p, _| p.inter_line_penalty = 100, "wolf_hall_inter_line_penalty_want.txt"),
+        ("wolf_hall_input.txt", &["3in"], |p, _| p.left_skip = common::Glue { width: Scaled::parse_from_string("20.0pt").unwrap(), ..Default::default() }, "wolf_hall_left_skip_want.txt"),
+        ("wolf_hall_input.txt", &["3in"], |p, _| p.line_penalty = 100, "wolf_hall_line_penalty_want.txt"),
+        ("wolf_hall_input.txt", &["3in"], |p, _| p.par_fill_skip = common::Glue::ZERO, "wolf_hall_par_fill_skip_want.txt"),
+        ("wolf_hall_input.txt", &["3in"], |p, _| p.pre_tolerance = 10000, "wolf_hall_pre_tolerance_want.txt"),
+        ("wolf_hall_input.txt", &["3in"], |p, _| p.right_skip = common::Glue { stretch: Scaled::parse_from_string("20.00003pt").unwrap(), ..Default::default() }, "wolf_hall_right_skip_want.txt"),
+        ("wolf_hall_input.txt", &["3in"], |p, _| p.tolerance = 45, "wolf_hall_tolerance_want.txt"),
+        ("alice_paragraph_1.txt", &["10in"], |_, _| {}, "alice_paragraph_1_want.txt"),
+        ("alice_paragraph_2.txt", &["10in"], |_, _| {}, "alice_paragraph_2_want.txt"),
+    ];
+    let mut lines = 0u64;
+    for (input, widths, tweak, want) in &cases {
+        let read = |f: &str| match std::fs::read_to_string(format!("{dir}/{f}")) {
+            Ok(s) => s,
+            Err(e) => {
+                eprintln!("c12-goldens: cannot read {dir}/{f}: {e}");
+                std::process::exit(2)
+            }
+        };
+        let text = read(input);
+        let mut params = kp::Params::plain_tex_defaults();
+        let mut tparams = boxworks_text::Params::plain_tex_defaults();
+        tweak(&mut params, &mut tparams);
+        // the way boxworks-knuthplass's tests build the list
+        let mut tp = fonts.preprocessor(tparams, 0);
+        let mut list = vec![];
+        for word in text.split_ascii_whitespace() {
+            tp.add_word(word.trim_matches(' '), &mut list);
+            tp.add_space(&mut list);
+        }
+        let words: Vec<Vec<u32>> = text.split_ascii_whitespace().map(codes).collect();
+        let case = ParaCase {
+            orig: list,
+            params,
+            widths: widths.iter().map(|w| d(w).0).collect(),
+            indents: vec![],
+            hyph: 1,
+            hfont: 0,
+            words: Some(words),
+        };
+        let mut ev = run_para(&fonts, &case);
+        // what real TeX made of it
+        let want_text = read(want);
+        let parsed = match boxworks::lang::parse_horizontal_list(&want_text) {
+            Ok(l) => l,
+            Err(_) => {
+                eprintln!("c12-goldens: {want} does not parse");
+                return 2;
+            }
+        };
+        let Some(ds::Horizontal::VBox(vb)) = parsed.first() else {
+            eprintln!("c12-goldens: {want} is not a vbox");
+            return 2;
+        };
+        lines += vb.list.iter().filter(|e| matches!(e, ds::Vertical::HBox(_))).count() as u64;
+        ev["tex"] = json!(vb.list.iter().map(vnode).collect::<Vec<_>>());
+        ev["file"] = json!(want);
+        note_para(&mut st, &ev);
+        out.line(&ev);
+    }
+    out.flush();
+    st.write(args, json!({"golden_files": cases.len(), "lines_set_by_tex": lines}));
+    eprintln!("c12-goldens: {} paragraphs, {} lines set by real TeX", cases.len(), lines);
+    0
+}
+
+// ------------------------------------------------------------------------------------------
+// replay: re-run recorded events on the real code
+// ------------------------------------------------------------------------------------------
+
+fn replay(args: &Args) -> i32 {
+    quiet_panics();
+    let fonts = Fonts::new();
+    let src = std::fs::read_to_string(args.req("in")).expect("read events");
+    let mut out = Out::new(args.str("out"));
+    for line in src.lines().filter(|l| !l.trim().is_empty()) {
+        let e: Value = serde_json::from_str(line).expect("event is JSON");
+        let i = |v: &Value| v.as_i64().unwrap() as i32;
+        match e["fn"].as_str() {
+            Some("text") => {
+                let c = TextCase {
+                    font: e["font"].as_u64().unwrap() as u32,
+                    text: e["text"].as_str().unwrap().to_string(),
+                    codes: e["codes"].as_array().unwrap().iter().map(|p| (p[0].as_u64().unwrap() as u8, i(&p[1]))).collect(),
+                    ss: glue_from(&e["S"]["ss"]),
+                    xs: glue_from(&e["S"]["xs"]),
+                };
+                let (ev, _) = run_text(&fonts, &c);
+                out.line(&ev);
+            }
+            Some("para") => {
+                let (p, k) = (&e["P"], &e["K"]);
+                let params = kp::Params {
+                    adj_demerits: i(&k["adj"]),
+                    broken_penalty: i(&p["broken"]),
+                    double_hyphen_demerits: i(&k["dhd"]),
+                    club_penalty: i(&p["club"]),
+                    emergency_stretch: Scaled(i(&k["es"])),
+                    ex_hyphen_penalty: i(&k["exhp"]),
+                    final_hyphen_demerits: i(&k["fhd"]),
+                    final_widow_penalty: i(&p["widow"]),
+                    hyphen_penalty: i(&k["hp"]),
+                    inter_line_penalty: i(&p["ilp"]),
+                    left_skip: glue_from(&p["ls"]),
+                    line_penalty: i(&k["lp"]),
+                    looseness: i(&k["loose"]),
+                    par_fill_skip: glue_from(&p["pfs"]),
+                    pre_tolerance: i(&k["pretol"]),
+                    right_skip: glue_from(&p["rs"]),
+                    tolerance: i(&k["tol"]),
+                };
+                let c = ParaCase {
+                    orig: e["orig"].as_array().unwrap().iter().map(node_from).collect(),
+                    params,
+                    widths: p["widths"].as_array().unwrap().iter().map(i).collect(),
+                    indents: p["indents"].as_array().unwrap().iter().map(i).collect(),
+                    hyph: e["hyph"].as_u64().unwrap() as u8,
+                    hfont: k["hfont"].as_u64().unwrap() as u32,
+                    words: e.get("words").map(|w| {
+                        w.as_array().unwrap().iter()
+                            .map(|x| x.as_array().unwrap().iter().map(|c| c.as_u64().unwrap() as u32).collect()).collect()
+                    }),
+                };
+                out.line(&run_para(&fonts, &c));
+            }
+            _ => {
+                eprintln!("c12-replay: not a C12 event: {line}");
+                return 2;
+            }
+        }
+    }
+    out.flush();
+    0
 }
